@@ -25,6 +25,7 @@ type Config struct {
 	MaxSliceLen    int
 	MaxPermute     int
 	MaxBigBytes    int
+	BigBlob        bool // big.Int.Bytes of a symbolic value = opaque bytes bound to the value (ideal encoding)
 	Thorough       bool
 	NoMerge        bool
 	AssertTag      string
@@ -160,6 +161,7 @@ type Path struct {
 	divCache map[string]*Term
 	ndiv    int
 	protoBlobs map[*Obj]protoBlob
+	bigBlobs   map[*Obj]*Term // opaque big-endian encodings of non-zero integers (obligation option bigblob=1)
 	nblob   int
 	obsTerms []obsTerm
 	knownTrue map[string]bool
@@ -869,7 +871,7 @@ func (e *Engine) newPath(s *Solver, prefix []int) *Path {
 	p := &Path{E: e, S: s, prefix: prefix, names: map[string]int{}, funcs: map[string]bool{}, stubs: map[string]bool{},
 		notes: map[string]bool{}, covers: map[string]bool{}, obs: map[string]string{}, views: map[string]*Obj{}, viewOf: map[*Obj]PtrV{},
 		inOverride: map[*ssa.Function]bool{}, choices: map[string]int{}, ufs: map[string][]ufApp{}, declared: map[string]bool{},
-		mutexes: map[*Obj]int{}, ndNames: map[string]int{}, chans: map[int]*chanState{}, divCache: map[string]*Term{}, protoBlobs: map[*Obj]protoBlob{}, knownTrue: map[string]bool{}, locks: map[string]int{}, flags: map[string]bool{},
+		mutexes: map[*Obj]int{}, ndNames: map[string]int{}, chans: map[int]*chanState{}, divCache: map[string]*Term{}, protoBlobs: map[*Obj]protoBlob{}, bigBlobs: map[*Obj]*Term{}, knownTrue: map[string]bool{}, locks: map[string]int{}, flags: map[string]bool{},
 		syncMaps: map[string]*MapV{}, atomVals: map[string]Value{}}
 	p.tb = &TB{}
 	if s != nil {
